@@ -67,7 +67,7 @@ def run_store(rep, work, d, exe, prop, tier, label, idx, n, memcap=1, compactn=2
             else:
                 break
         return lo
-    drift = {rj["history_start"] for rj in v["rejected"]}
+    drift = {rj["history_start"] for rj in v["rejected"]} | set(v["unvalidated"])     # histories not shown to be behaviours of Store.tla
     explained = {}
     for kind, gi, rest in v["reports"]:
         explained.setdefault(gi, set()).add(kind)
@@ -101,7 +101,11 @@ def run_store(rep, work, d, exe, prop, tier, label, idx, n, memcap=1, compactn=2
             rep.violation(path, "%s: %s at event %d (%s): %s" % (label, kind, gi, "history not conformant to Store.tla" if h in drift else "not explained by the deviation ghosts",
                                                               lines[gi][:300]))
     for h in sorted(drift - bad_hist):
-        rj = [x for x in v["rejected"] if x["history_start"] == h][0]
+        rjs = [x for x in v["rejected"] if x["history_start"] == h]
+        if not rjs:
+            rep.cov["model_drift"].append("%s: history at %d was not examined (too many refused histories before it in its chunk)" % (label, h))
+            continue
+        rj = rjs[0]
         rep.cov["model_drift"].append("%s: history at %d leaves Store.tla at event %d (%s) but no clause of the property fails on it" % (label, h, rj["event_index"], rj["event"][:120]))
     rep.cov.setdefault("store_runs", []).append(dict(label=label, histories=v["histories"], events=v["events"], monitor_reports=counts,
                                                      conformance_rejections=len(v["rejected"]), images=sum(1 for x in lines if '"op":"image.begin"' in x)))
